@@ -1025,6 +1025,21 @@ class Run:
                                 if isinstance(ex, asyncio.CancelledError):
                                     raise
                         self.rec('accessed', by=by, ev=res['ev'], snap=self.snap(e))
+                elif k == 'await_hresult':
+                    # `await event.event_results[handler_id]`: waiting for ONE handler's result object (its own timeout clock starts now)
+                    other = self.actor_events.get(op[1], [])
+                    if op[2] < len(other):
+                        e = other[op[2]]
+                        rs = list(e.event_results.values())
+                        if op[3] < len(rs):
+                            res['ev'] = self.tag_of(e)
+                            try:
+                                await rs[op[3]]
+                            except asyncio.CancelledError:
+                                raise
+                            except BaseException as ex:  # noqa: BLE001
+                                res['exc_h'] = type(ex).__name__
+                            self.rec('accessed', by=by, ev=res['ev'], snap=self.snap(e))
                 elif k == 'await_of':
                     other = self.actor_events.get(op[1], [])
                     if op[2] < len(other) and other[op[2]].event_path:
